@@ -14,7 +14,7 @@ import (
 
 func init() {
 	register(&Property{
-		ID: "C16",
+		ID:          "C16",
 		Explanation: "R5: the source and name indices that ParseSourceMap stores into a Mapping (and that every consumer later uses to index the sources/names arrays unchecked) are, up to conversions, exactly the SSA values whose two range tests are known false where they are stored; arithmetic applied after the checks is reported. Decides four hazards the code manages by convention (necessary conditions of 'no crash, hang or internal error', not termination or absence of index/nil panics): R1 the typed lexer panic (js_lexer.LexerPanic) can propagate only to functions of js_lexer/js_parser and is recovered by every entry point other packages call; R2 every type switch / enum switch whose default arm panics and that dispatches over a whole sealed node family (printExpr, printStmt, visitExprInOut, printRule, ...) has a case for every implementer/constant, or a reviewed reason why that kind cannot reach it; R3 parseFile sends exactly one result on every path (including the recover path), and every goroutine that signals a WaitGroup does so on every path; R4 the file-handle semaphore (BeforeFileOpen/AfterFileClose) is released on every exit. R10 shared-ast-immutability: the C09/R2 frozen-AST analysis (no symbol ref of one link stored into memory that outlives it). R11 keyed-callback-lists-refiltered: slices whose elements are keys of unchecked map-lookup calls are reset or filtered against the new value after every store of the map's container. NOT covered: loop termination, recursion depth, index/nil safety on malformed input, unreachability of panic(\"Internal error\") sites.",
 		Run: func(p *Prog, tier string) []*RuleResult {
 			return []*RuleResult{c16PanicContainment(p), c16DefaultExhaustive(p), c16ExactlyOnce(p), c16AcquireRelease(p), c16CheckedIndex(p), c16MarkBeforeRecurse(p), c16PrefixSuffixOverlap(p), c16UnrepresentableNames(p), c16SeparatorFollowed(p), renamed(c09Frozen(p), "C16/R10 shared-ast-immutability", "symbol references written into a cached AST outlive the link that generated the symbols; a later build prints them against its own symbol table and panics with an index out of range (same analysis as C09/R2)"), c16KeyedCallbackLists(p)}
@@ -177,25 +177,25 @@ func c16PanicContainment(p *Prog) *RuleResult {
 // R2 panicking defaults
 
 var c16DefaultExceptions = ExcTable{
-	"js_parser.(*parser).visitAndAppendStmt switch over js_ast.S: SLazyExport":     "created only by js_parser.LazyExportAST for data loaders, whose AST is never visited",
-	"js_parser.(*parser).visitExprInOut switch over js_ast.E: EAnnotation":         "created only by the visit pass itself (wrapping a visited call), never by the parse pass",
-	"js_parser.(*parser).visitExprInOut switch over js_ast.E: EImportIdentifier":   "created only by the visit pass (handleIdentifier) from EIdentifier",
-	"js_parser.(*parser).visitExprInOut switch over js_ast.E: EImportString":       "created only by the visit pass from EImportCall with a string argument",
-	"js_parser.(*parser).visitExprInOut switch over js_ast.E: EInlinedEnum":        "created only by the visit pass when inlining enum values",
-	"js_parser.(*parser).visitExprInOut switch over js_ast.E: EMissing":            "array holes: the EArray case inspects its items and never visits an EMissing item",
-	"js_parser.(*parser).visitExprInOut switch over js_ast.E: EPrivateIdentifier":  "only the left operand of `#x in y` (handled in the binary visitor before visiting operands) and class member keys (handled by the class visitor)",
-	"js_parser.(*parser).visitExprInOut switch over js_ast.E: ERequireResolveString": "created only by the visit pass from require.resolve(\"...\")",
-	"js_parser.(*parser).visitExprInOut switch over js_ast.E: ERequireString":      "created only by the visit pass from require(\"...\")",
+	"js_parser.(*parser).visitAndAppendStmt switch over js_ast.S: SLazyExport":         "created only by js_parser.LazyExportAST for data loaders, whose AST is never visited",
+	"js_parser.(*parser).visitExprInOut switch over js_ast.E: EAnnotation":             "created only by the visit pass itself (wrapping a visited call), never by the parse pass",
+	"js_parser.(*parser).visitExprInOut switch over js_ast.E: EImportIdentifier":       "created only by the visit pass (handleIdentifier) from EIdentifier",
+	"js_parser.(*parser).visitExprInOut switch over js_ast.E: EImportString":           "created only by the visit pass from EImportCall with a string argument",
+	"js_parser.(*parser).visitExprInOut switch over js_ast.E: EInlinedEnum":            "created only by the visit pass when inlining enum values",
+	"js_parser.(*parser).visitExprInOut switch over js_ast.E: EMissing":                "array holes: the EArray case inspects its items and never visits an EMissing item",
+	"js_parser.(*parser).visitExprInOut switch over js_ast.E: EPrivateIdentifier":      "only the left operand of `#x in y` (handled in the binary visitor before visiting operands) and class member keys (handled by the class visitor)",
+	"js_parser.(*parser).visitExprInOut switch over js_ast.E: ERequireResolveString":   "created only by the visit pass from require.resolve(\"...\")",
+	"js_parser.(*parser).visitExprInOut switch over js_ast.E: ERequireString":          "created only by the visit pass from require(\"...\")",
 	"css_printer.(*printer).printMediaQuery switch over css_ast.MQ: MQArbitraryTokens": "handled by a type assertion right before the switch",
-	"js_printer.(*printer).printExpr switch over js_ast.E: EJSXText":               "only a child/attribute of EJSXElement, printed inline by the EJSXElement case in preserve mode and converted to EString otherwise",
-	"js_printer.(*printer).printExpr switch over js_ast.E: EPrivateIdentifier":     "printed by the callers that can hold one: EIndex with a private name, `#x in y` in printBinary, class/property keys",
-	"js_printer.(*printer).printStmt switch over js_ast.S: SEnum":                  "TypeScript-only statement, always lowered by the visit pass before printing",
-	"js_printer.(*printer).printStmt switch over js_ast.S: SExportEquals":          "TypeScript-only statement, always lowered by the visit pass before printing",
-	"js_printer.(*printer).printStmt switch over js_ast.S: SLazyExport":            "replaced by the linker (generateCodeForLazyExport) before any file is printed",
-	"js_printer.(*printer).printStmt switch over js_ast.S: SNamespace":             "TypeScript-only statement, always lowered by the visit pass before printing",
-	"js_printer.(*printer).printStmt switch over js_ast.S: STypeScript":            "TypeScript-only statement, always removed by the visit pass before printing",
-	"pkg/api.resolveKindToImportKind switch over pkg/api.ResolveKind: ResolveNone": "zero value meaning 'not set'; validated earlier (Resolve() rejects a missing kind)",
-	"cmd/esbuild.resolveKindToString switch over pkg/api.ResolveKind: ResolveNone": "zero value meaning 'not set'; callbacks always receive a concrete kind from the bundler",
+	"js_printer.(*printer).printExpr switch over js_ast.E: EJSXText":                   "only a child/attribute of EJSXElement, printed inline by the EJSXElement case in preserve mode and converted to EString otherwise",
+	"js_printer.(*printer).printExpr switch over js_ast.E: EPrivateIdentifier":         "printed by the callers that can hold one: EIndex with a private name, `#x in y` in printBinary, class/property keys",
+	"js_printer.(*printer).printStmt switch over js_ast.S: SEnum":                      "TypeScript-only statement, always lowered by the visit pass before printing",
+	"js_printer.(*printer).printStmt switch over js_ast.S: SExportEquals":              "TypeScript-only statement, always lowered by the visit pass before printing",
+	"js_printer.(*printer).printStmt switch over js_ast.S: SLazyExport":                "replaced by the linker (generateCodeForLazyExport) before any file is printed",
+	"js_printer.(*printer).printStmt switch over js_ast.S: SNamespace":                 "TypeScript-only statement, always lowered by the visit pass before printing",
+	"js_printer.(*printer).printStmt switch over js_ast.S: STypeScript":                "TypeScript-only statement, always removed by the visit pass before printing",
+	"pkg/api.resolveKindToImportKind switch over pkg/api.ResolveKind: ResolveNone":     "zero value meaning 'not set'; validated earlier (Resolve() rejects a missing kind)",
+	"cmd/esbuild.resolveKindToString switch over pkg/api.ResolveKind: ResolveNone":     "zero value meaning 'not set'; callbacks always receive a concrete kind from the bundler",
 }
 
 func clausePanics(cc *ast.CaseClause) bool {
